@@ -13,7 +13,7 @@ RULE = ('C19/C20 runs with live_spy and/or live_trace switched on, on HsmWithQue
         'callback exactly one formatted record per new trace record, in order. distinct_nontrivial = distinct (host, clock, live flags, '
         'spy lines, trace records) tuples')
 CASES = {'quick': 2500, 'thorough': 100000}
-BUDGET = {'quick': 40, 'thorough': 900}
+BUDGET = {'quick': 40, 'thorough': 300}
 REQUIRE = {'live_spy_runs': 500, 'live_trace_runs': 500, 'clock_frozen': 100, 'clock_coarse': 100, 'clock_backwards': 100, 'live_trace_records': 5000}
 ASSUME = ['the clock is substituted only through the module global miros.hsm.stdlib_datetime (strftime etc. stay real)']
 
